@@ -1875,6 +1875,391 @@ SOLVE_COEFFS = [Fraction(0), Fraction(1, 2), Fraction(-1, 2), Fraction(1), Fract
                 Fraction(-3, 2)]
 
 
+# ------------------------------------------------------------------------------------------------
+# round 8: the parameter plumbing between `solve` and the circuit (`Model/C12Inst.lean`): the `bounds` list built from
+# the block's parameters, what reaches the minimiser after the imposed parameters were removed, and the instantiation
+# `get_parameters()[0].fix_value(res[i])` of the copy that goes into the circuit
+# ------------------------------------------------------------------------------------------------
+INST_EXTRA_BLOCKS = ("bs_fixed_first", "bsnp_fixed_between")
+INST_NFREE = dict(NFREE, bs_fixed_first=2, bsnp_fixed_between=2)
+# the matrix is also handed over as a sympy-class Matrix (MatrixS) of plain numbers — what `circuit.U` is — and as one with a
+# free symbol (must be refused)
+INST_SYMBOLIC_CLASS = True
+INST_OUTSIDE = [-1.3, 7.9, 15.2, -9.4, 26.0, 13.1, -0.05]
+
+
+def make_inst_block(name):
+    import perceval as pcvl
+    from perceval.components import BS
+    P = pcvl.P
+    if name == "bs_fixed_first":       # the table starts with a FIXED parameter, the free ones are not adjacent
+        return BS.H(theta=1.1, phi_bl=P("a"), phi_br=P("b"))
+    if name == "bsnp_fixed_between":   # bounded non-periodic angle, a fixed parameter, then a free periodic phase
+        th = P("theta", min_v=0, max_v=math.pi)
+        b = BS.H(theta=th, phi_tl=0.3, phi_bl=P("phi"))
+        th.set_periodic(False)
+        return b
+    return make_block(name)
+
+
+def _param_table(comp):
+    return [{"name": p.name, "free": not p.fixed, "val": (float(p) if p.defined else None),
+             "lo": (None if p.min is None else float(p.min)), "hi": (None if p.max is None else float(p.max)),
+             "per": bool(p.is_periodic)} for p in comp.get_parameters(all_params=True)]
+
+
+def gen_inst_case(rng, i):
+    scripted = [("bsnp_ps", "full-outside", True), ("bs_psnp", "partial-first", False), ("bsH_phibl", "full-outside", True),
+                ("bs_fixed_first", "full", True), ("bsnp_fixed_between", "partial-second", False),
+                ("mzi_np", "partial-second", False), ("bsnp_fixed_between", "full-outside", True),
+                ("bs_psnp", "partial-outside", True), ("bs_ps", "free", False), ("mzi_last", "free", False)]
+    matclass = "numeric"
+    force_phase = False
+    if i < len(scripted):
+        blk, mode, allow = scripted[i]
+        if i == 8:
+            matclass, force_phase = "symdef", True
+        if i == 9:
+            matclass = "symfree"
+    else:
+        if INST_SYMBOLIC_CLASS:
+            matclass = rng.choice(["numeric"] * 8 + ["symdef", "symfree"])
+        pool = list(BOUNDED) + list(INST_EXTRA_BLOCKS) + ["bsH_phibl"] if rng.random() < 0.45 else BLOCK_NAMES
+        blk = rng.choice(pool)
+        mode = rng.choice(["free", "free", "partial-first", "partial-second", "full", "full-outside", "partial-outside"])
+        allow = rng.random() < (0.6 if mode != "free" else 0.2)
+    k = INST_NFREE[blk]
+
+    def inside():
+        return rng.uniform(0.1, 3.0)
+
+    def outside():
+        return rng.choice(INST_OUTSIDE) + rng.uniform(-0.01, 0.01)
+    cons = None
+    if k and mode != "free":
+        if mode == "full":
+            c = [inside() for _ in range(k)]
+        elif mode == "full-outside":
+            c = [inside() for _ in range(k)]
+            c[rng.randrange(k)] = outside()
+        elif mode == "partial-outside":
+            c = [None] * k
+            c[rng.randrange(k)] = outside()
+        else:
+            c = [None] * k
+            c[0 if mode == "partial-first" else k - 1] = inside()
+        cons = [c]
+        if not allow and rng.random() < 0.5:
+            cons.append([None] * k)          # a free fallback entry
+    return {"block": blk, "n": rng.choice([2, 2, 3]), "kind": rng.choice(["haar", "haar", "perm", "sparse"]),
+            "seed": rng.randrange(1, 2 ** 30), "phase": (rng.random() < 0.6) or force_phase, "ignore": rng.random() < 0.5,
+            "cons": cons, "allow_error": bool(allow), "max_try": 3, "matclass": matclass}
+
+
+def observe_inst(cse):
+    import warnings
+    warnings.filterwarnings("ignore")
+    import perceval as pcvl
+    from perceval.components import PS, PERM, Circuit
+    import scipy.optimize as so
+    t0 = time.time()
+    out = {}
+    block = make_inst_block(cse["block"])
+    out["table"] = _param_table(block)
+    u0 = make_matrix(cse["kind"], cse["n"], cse["seed"])
+    kw = {"max_try": cse["max_try"], "allow_error": cse["allow_error"], "merge": False,
+          "ignore_identity_block": cse["ignore"]}
+    if cse["cons"] is not None:
+        kw["constraints"] = [tuple(c) for c in cse["cons"]]
+    if cse["phase"]:
+        kw["phase_shifter_fn"] = PS
+    attempts = []
+    undo = []
+    try:
+        import perceval.components.linear_circuit as LC
+        import perceval.utils.algorithms.solve as SM
+        D = LC.decomposition
+        orig_t, orig_s, orig_m = D.decompose_triangle, D.solve, so.minimize
+        cur = {"solve": None}
+
+        def hook_t(*a, **k):
+            rec = {"calls": [], "ok": False}
+            attempts.append(rec)
+            r = orig_t(*a, **k)
+            rec["ok"] = r is not None
+            return r
+
+        def hook_s(f, x0, constraint, bounds, *a, **k):
+            rec = {"x0": [float(x) for x in x0], "cs": [None if c is None else float(c) for c in constraint],
+                   "bounds": [None if b is None else [None if b[0] is None else float(b[0]),
+                                                     None if b[1] is None else float(b[1])] for b in bounds],
+                   "min": [], "res": None}
+            if attempts:
+                attempts[-1]["calls"].append(rec)
+            prev, cur["solve"] = cur["solve"], rec
+            try:
+                r = orig_s(f, x0, constraint, bounds, *a, **k)
+            finally:
+                cur["solve"] = prev
+            rec["res"] = None if r is None else [float(x) for x in r]
+            return r
+
+        def hook_m(fun, x0, *a, **k):
+            if cur["solve"] is not None:
+                b = k.get("bounds")
+                cur["solve"]["min"].append({"x0": [float(x) for x in x0], "method": k.get("method"),
+                                            "bounds": None if b is None else [[None if lo is None else float(lo),
+                                                                              None if hi is None else float(hi)]
+                                                                             for lo, hi in b]})
+            return orig_m(fun, x0, *a, **k)
+
+        D.decompose_triangle, D.solve, so.minimize = hook_t, hook_s, hook_m
+        undo = [(D, "decompose_triangle", orig_t), (D, "solve", orig_s), (so, "minimize", orig_m)]
+        if getattr(SM, "minimize", None) is orig_m:
+            SM.minimize = hook_m
+            undo.append((SM, "minimize", orig_m))
+        out["hooked"] = True
+    except Exception:
+        out["hooked"] = False
+    pcvl.random_seed(cse["seed"])
+    mc = cse.get("matclass", "numeric")
+    if mc == "numeric":
+        arg = pcvl.Matrix(u0.copy())
+    else:
+        import sympy as sp
+        arg = pcvl.Matrix([[complex(z) for z in row] for row in u0], use_symbolic=True)
+        if mc == "symfree":
+            arg[0, 0] = sp.Symbol("x")
+    out["arg_class"] = type(arg).__name__
+    out["arg_symbolic"] = bool(arg.is_symbolic())
+    try:
+        try:
+            c = Circuit.decomposition(arg, block, **kw)
+            out["result"] = "None" if c is None else "circuit"
+        except Exception as e:
+            c = None
+            out["result"] = type(e).__name__
+            out["msg"] = str(e)[:160]
+    finally:
+        for mod, name, val in undo:
+            setattr(mod, name, val)
+    out["attempts"] = attempts
+    out["table_after"] = _param_table(block)
+    if c is not None:
+        comps = getattr(c, "_components", None)
+        if comps is not None:
+            out["blocks"] = [_param_table(cc) for r, cc in comps if len(r) == 2 and not isinstance(cc, PERM)]
+        out["left_free"] = len(c.get_parameters())
+        if cse["phase"] and not cse["allow_error"]:
+            M = np.array(c.compute_unitary(), dtype=complex)
+            out["dist"] = float(np.linalg.norm(M - u0))
+    out["t"] = time.time() - t0
+    return out
+
+
+def _ratn(x):
+    return None if x is None else core.rat(float(x))
+
+
+def judge_inst(chk, cse, out):
+    if not out.get("hooked"):
+        return None                     # no observation: the required branches report the blind run
+    table = out["table"]
+    k = sum(1 for p in table if p["free"])
+    cells = [{"free": p["free"], "val": _ratn(p["val"]), "lo": _ratn(p["lo"]), "hi": _ratn(p["hi"]), "per": p["per"]}
+             for p in table]
+    sig_case = f"{cse['block']}/{'free' if cse['cons'] is None else 'cons'}/{'ae' if cse['allow_error'] else 'strict'}"
+    if out["table_after"] != table:
+        return ("broken", "block-template-modified", f"the caller's block changed: {table} -> {out['table_after']}")
+    free_idx = [i for i, p in enumerate(table) if p["free"]]
+    if any(not table[j]["free"] for j in range(free_idx[0] if free_idx else 0, free_idx[-1] if free_idx else 0)) \
+            or (free_idx and free_idx[0] > 0):
+        chk.branch("inst:fixed-among-free")
+    base = chk.lean.ask({"op": "inst", "cells": cells, "res": []})
+    if "err" in base:
+        return ("broken", "lean-inst", f"model rejected the template: {base['err']}")
+    want_bounds = [None if b is None else [None if x is None else float(Fraction(x)) for x in b] for b in base["bounds"]]
+    last_ok = None
+    raised_in = None
+    for ai, att in enumerate(out["attempts"]):
+        for call in att["calls"]:
+            # (1) the `bounds` list decompose_triangle hands to solve
+            if call["bounds"] != want_bounds:
+                return ("broken", "solve-bounds-wrong",
+                        f"decompose_triangle passed bounds {call['bounds']} to solve; the parameters of the block are "
+                        f"{[(p['name'], p['lo'], p['hi'], p['per']) for p in table if p['free']]}: expected {want_bounds}")
+            if any(b is not None for b in want_bounds):
+                chk.branch("inst:bounds-nonperiodic")
+            if len(call["x0"]) != k or len(call["cs"]) != k:
+                return ("broken", "solve-arity", f"solve called with {len(call['x0'])} starting values / "
+                                                 f"{len(call['cs'])} constraint entries for {k} free parameters")
+            # (2) what reaches the minimiser
+            rep = chk.lean.ask({"op": "optargs", "x0": [core.rat(x) for x in call["x0"]], "bs": list(range(k)),
+                                "cs": [_ratn(c) for c in call["cs"]]})
+            if "err" in rep:
+                return ("broken", "lean-inst", f"model rejected the solve call: {rep['err']}")
+            mx0 = [float(Fraction(x)) for x in rep["x0"]]
+            mb = [[None, None] if want_bounds[l] is None else want_bounds[l] for l in rep["bs"]]
+            if not mx0:
+                if call["min"]:
+                    return ("broken", "minimiser-called-without-parameter",
+                            f"every parameter imposed ({call['cs']}) but the minimiser was called: {call['min']}")
+            else:
+                if not call["min"]:
+                    return ("broken", "minimiser-not-observed", f"solve({call['cs']}) returned without calling the minimiser")
+                first = call["min"][0]
+                if first["x0"] != mx0:
+                    return ("broken", "minimiser-start-misaligned",
+                            f"constraint {call['cs']}, x0 {call['x0']}: the minimiser started from {first['x0']}, "
+                            f"model: {mx0}")
+                for mc in call["min"]:
+                    if mc["bounds"] != mb:
+                        return ("broken", "minimiser-bounds-misaligned",
+                                f"constraint {call['cs']}, bounds {call['bounds']}: the minimiser ({mc['method']}) was "
+                                f"given bounds {mc['bounds']}, model: {mb}")
+                chk.branch("inst:minimiser-compared")
+                if len(mx0) < k:
+                    chk.branch("inst:minimiser-partial")
+                    if any(b != [None, None] for b in mb) or any(b is not None for b in want_bounds):
+                        chk.branch("inst:minimiser-partial-bounded")
+            if call["res"] is not None:
+                if len(call["res"]) != k:
+                    return ("broken", "solve-result-length", f"solve returned {len(call['res'])} values for {k} parameters")
+                for c_, r_ in zip(call["cs"], call["res"]):
+                    if c_ is not None and r_ != c_:
+                        return ("broken", "imposed-value-not-returned", f"constraint {call['cs']} -> {call['res']}")
+        if att["ok"]:
+            last_ok = ai
+    got = out["result"]
+    # (0) which object the elimination runs on (`MatClass` of Model/C12Inst.lean; main model = repaired code)
+    mc = cse.get("matclass", "numeric")
+    if mc != "numeric":
+        if not out.get("arg_symbolic"):
+            raise RuntimeError(f"the harness did not build a symbolic-class matrix ({out.get('arg_class')})")
+        rep = chk.lean.ask({"op": "matclass", "cls": mc, "repaired": True})
+        pinned = chk.lean.ask({"op": "matclass", "cls": mc, "repaired": False})
+        if "err" in rep or "err" in pinned:
+            raise RuntimeError(rep.get("err") or pinned.get("err"))
+        if not rep["passes"]:
+            glue = chk.lean.ask({"op": "glue", "shape": {"str": "triangle"}, "unitary": False, "symbolic": True,
+                                 "constraints": None if cse["cons"] is None else [k] * len(cse["cons"]), "nparams": k,
+                                 "max_try": cse["max_try"], "attempts": []})
+            if glue.get("outcome") != "ValueError":
+                return ("broken", "lean-glue", f"glue model on a symbolic request: {glue}")
+            if got != "ValueError" or out["attempts"]:
+                return ("broken", "symbolic-matrix-not-refused",
+                        f"a matrix with a free symbol gave {got} ({out.get('msg', '')}) after {len(out['attempts'])} attempt(s); "
+                        f"the model says ValueError before any attempt")
+            chk.branch("inst:symbolic-free-refused")
+            return None
+        if got not in ("circuit", "None"):
+            if cse["phase"] and not pinned["readable"]:
+                # the property evaluated directly: a unitary matrix (perceval's own Matrix class, what `circuit.U` is) was
+                # requested and the call raised
+                return ("violation", "symbolic-class-input-crashes",
+                        f"Circuit.decomposition raised {got} ({out.get('msg', '')}) on a unitary {out.get('arg_class')} "
+                        f"of plain numbers with a phase layer (block {cse['block']}, n = {cse['n']}): the validation looks at "
+                        f"Matrix(U) but the elimination runs on the caller's sympy object")
+    # (3) the instantiation of the solved blocks
+    def model_inst(res):
+        rep = chk.lean.ask({"op": "inst", "cells": cells, "res": [core.rat(x) for x in res]})
+        if "err" in rep:
+            raise RuntimeError(rep["err"])
+        return rep["out"]
+    # an attempt that raised: its last accepted solve result must be one the model refuses
+    if got not in ("circuit", "None"):
+        att = out["attempts"][-1] if out["attempts"] else None
+        accepted = [c["res"] for c in att["calls"] if c["res"] is not None] if att else []
+        # the loop stops at the first accepted answer of a cell: the raising one is the last accepted of the attempt
+        if got == "ValueError" and accepted and model_inst(accepted[-1]) is None:
+            chk.branch("inst:value-error")
+            chk.count("inst", "ValueError as the model says")
+            return None
+        return ("violation", f"raises-{got}",
+                f"Circuit.decomposition raised {got} ({out.get('msg', '')}) on block {cse['block']}, constraints "
+                f"{cse['cons']}, allow_error={cse['allow_error']}; accepted solver results of the attempt: {accepted}")
+    # every accepted result of every attempt is instantiated (abandoned attempts too): none may be refused by the model
+    for att in out["attempts"]:
+        cell_res = _cell_results(att)
+        for res in cell_res:
+            if model_inst(res) is None:
+                return ("broken", "instantiation-should-raise",
+                        f"the model of fix_value refuses {res} for {[(p['name'], p['lo'], p['hi'], p['per']) for p in table if p['free']]} "
+                        f"but the call ended with {got}")
+    if got == "None":
+        chk.count("inst", "None")
+        return None
+    if "blocks" not in out:
+        return None
+    att = out["attempts"][last_ok] if last_ok is not None else None
+    if att is None or last_ok != len(out["attempts"]) - 1:
+        return ("broken", "decomposition-control-flow", "a circuit was returned but the last attempt did not succeed")
+    cell_res = _cell_results(att)
+    blocks = out["blocks"][::-1]          # the list is prepended: circuit order = reverse of the solving order
+    if len(blocks) != len(cell_res):
+        return ("broken", "block-count", f"{len(cell_res)} cells were solved, the circuit has {len(blocks)} blocks")
+    worst = None
+    for res, tb in zip(cell_res, blocks):
+        want = model_inst(res)
+        if want is None or len(want) != len(tb):
+            worst = f"model {want}, circuit {tb}"
+            break
+        for w, g, tp in zip(want, tb, table):
+            wv = None if w["val"] is None else float(Fraction(w["val"]))
+            if w["free"] != g["free"] or (wv is None) != (g["val"] is None) or \
+                    (wv is not None and not core.close(g["val"], wv)) or (g["lo"], g["hi"], g["per"]) != (tp["lo"], tp["hi"], tp["per"]):
+                worst = (f"solver result {res}: parameter {tp['name']} of the block in the circuit is "
+                         f"{'free' if g['free'] else 'fixed'} = {g['val']} (bounds {g['lo']}, {g['hi']}, periodic {g['per']}); "
+                         f"model: {'free' if w['free'] else 'fixed'} = {wv}")
+                break
+        if worst:
+            break
+        if any(tp["free"] and abs(g["val"] - r) > 1e-6 for tp, g, r in
+               zip([tp for tp in table if tp["free"]], [g for g, tp in zip(tb, table) if tp["free"]], res)):
+            chk.branch("inst:wrapped")
+    if worst is None and out.get("left_free"):
+        worst = f"the returned circuit still has {out['left_free']} free parameter(s)"
+    if worst:
+        n = cse["n"]
+        N = n * (n - 1) // 2
+        bound = (math.sqrt(n - 1) + 2) * N * 1e-6 + n * (N * 1e-6) ** 2 + 1e-9
+        if out.get("left_free") or ("dist" in out and out["dist"] > bound):
+            return ("violation", "instantiated-block-wrong-parameters",
+                    f"{worst}; ||circuit - U||_F = {out.get('dist')} (bound {bound:.3g}), free parameters left: {out.get('left_free')}")
+        return ("broken", "instantiated-block-wrong-parameters", worst)
+    if "dist" in out:
+        n = cse["n"]
+        N = n * (n - 1) // 2
+        bound = (math.sqrt(n - 1) + 2) * N * 1e-6 + n * (N * 1e-6) ** 2 + 1e-9
+        if out["dist"] > bound:
+            return ("violation", "wrong-matrix", f"||circuit - U||_F = {out['dist']} > {bound:.3g} (block {cse['block']}, "
+                                                 f"constraints {cse['cons']})")
+    chk.branch("inst:compared")
+    if mc == "symdef":
+        chk.branch("inst:symbolic-class-numeric-content")
+    chk.count("inst", "circuit compared")
+    chk.case(sig_case, cse["n"] >= 3, None)
+    return None
+
+
+def _cell_results(att):
+    """accepted solver results of one attempt, one per solved cell: the constraint loop stops at the first accepted
+    entry, so every accepted call closes a cell"""
+    return [c["res"] for c in att["calls"] if c["res"] is not None]
+
+
+def handle_inst(chk, cse, out):
+    try:
+        r = judge_inst(chk, cse, out)
+    except RuntimeError as e:
+        r = ("broken", "lean-inst", f"model rejected a request: {e}")
+    if r is not None:
+        kind, sig, what = r
+        chk.count("failures", sig)
+        chk.fail(kind, sig, what, {"inst_case": cse})
+
+
+
 def _dy(rng):
     return Fraction(rng.randint(-16, 16), 8)
 
@@ -2032,10 +2417,18 @@ def run(chk: core.Check):
                 "run-level existence theorem on the real bookkeeping — one attempt, every cell nulled to 1e-12, the matrix "
                 "reproduced to 1e-11 at precision 1e-12); plus BS(theta) alone and catalog['mzi phase first'] at rational "
                 "points, on cells built nullable (closed-form root on the real equation) and on cells the model says no "
-                "parameter value nulls (the real solve must answer None) (extra.other_block_cases)")
+                "parameter value nulls (the real solve must answer None) (extra.other_block_cases); plus runs of "
+                "Circuit.decomposition (merge=False, n = 2..3, constraints free / partial / fully imposed / imposed outside the "
+                "period or the bounds, allow_error on/off, numeric and sympy-class matrices) in which every call of "
+                "decomposition.solve and of scipy.optimize.minimize is recorded: the bounds list, what reaches the minimiser "
+                "and the parameter table of every block of the returned circuit against Model/C12Inst.lean (extra.inst_cases)")
     chk.assumptions = [
         "block matrices and the phase shifters' matrices are taken from each leaf's own compute_unitary() (C14)",
-        "allow_error=True is not exercised (it voids the precision guarantee by design)",
+        "allow_error=True voids the precision guarantee by design: it is exercised for the control flow (glue cases) and "
+        "for the parameter plumbing (inst cases: the solver result is then the imposed vector), never for the matrix",
+        "inst cases read the blocks of the returned circuit through Circuit._components (merge=False) and the parameter "
+        "tables through get_parameters(all_params=True); the hooks on decomposition.solve / scipy.optimize.minimize call "
+        "the originals unchanged",
         "existence (a circuit is found within max_try=10) is claimed only for catalog['mzi phase last'] and "
         "BS(theta)//PS(phi) with an unrestricted constraint; it is validated by sampling, not proved",
         "tolerance of the direct oracle = the proved bound (sqrt(n-1)+2)·N·precision + n·(N·precision)² + 1e-9 "
@@ -2094,7 +2487,11 @@ def run(chk: core.Check):
                              "exact-run-tight-precision/generated",
                              # the two characterised non-universal blocks: family, nullable and unsolvable cells
                              "blockmat:bs", "blockmat:mzi_first", "closed-form-root:bs", "closed-form-root:mzi_first",
-                             "unsolvable-cell:bs", "unsolvable-cell:mzi_first"]
+                             "unsolvable-cell:bs", "unsolvable-cell:mzi_first",
+                             # round 8: bounds list, what reaches the minimiser, instantiation of the solved blocks
+                             "inst:compared", "inst:fixed-among-free", "inst:bounds-nonperiodic", "inst:minimiser-compared",
+                             "inst:minimiser-partial", "inst:minimiser-partial-bounded", "inst:wrapped", "inst:value-error",
+                             "inst:symbolic-class-numeric-content", "inst:symbolic-free-refused"]
     chk.lean = core.LeanDriver("C12")
     rng = chk.rng
     n_cases = chk.pick(200, 400)
@@ -2124,6 +2521,8 @@ def run(chk: core.Check):
         exact_pending = [pool.apply_async(observe, (e,)) for e in exact_specs]
         other_cases = [gen_other_block_case(rng) for _ in range(chk.pick(60, 240))]
         other_pending = [pool.apply_async(observe_blocks, (other_cases[c::4],)) for c in range(4)]
+        inst_cases = [gen_inst_case(rng, i) for i in range(chk.pick(60, 200))]
+        inst_pending = [pool.apply_async(observe_inst, (g,)) for g in inst_cases]
         for i in range(len(specs)):
             obs = pending.pop(i).get()
             if i < ncorpus:
@@ -2151,6 +2550,13 @@ def run(chk: core.Check):
             for cse, out in zip(other_cases[c::4], other_pending[c].get()):
                 handle_block(chk, cse, out)
         chk.extra["other_block_cases"] = len(other_cases)
+        tinst = 0.0
+        for g, pend in zip(inst_cases, inst_pending):
+            o = pend.get()
+            tinst += o["t"]
+            handle_inst(chk, g, o)
+        chk.extra["inst_cases"] = len(inst_cases)
+        chk.extra["inst_cpu_s"] = round(tinst, 1)
     chk.extra["decomposition_cpu_s"] = round(tsum, 1)
     chk.extra["pool_wall_s"] = round(time.time() - t0, 1)
     chk.extra["corpus_cases"] = ncorpus
@@ -2166,6 +2572,10 @@ def replay(chk, data):
     if "block_case" in data["replay"]:
         cse = data["replay"]["block_case"]
         handle_block(chk, cse, observe_blocks([cse])[0])
+        return
+    if "inst_case" in data["replay"]:
+        cse = data["replay"]["inst_case"]
+        handle_inst(chk, cse, observe_inst(cse))
         return
     if "solve_case" in data["replay"]:
         cse = data["replay"]["solve_case"]
